@@ -1,0 +1,37 @@
+//! Verification hooks, only compiled with `--cfg adf_obdd_verif`.
+//!
+//! A thread-local step budget which allows a harness to turn a non-terminating search into a recognisable panic.
+
+use std::cell::Cell;
+
+thread_local! {
+    static BUDGET: Cell<Option<u64>> = const { Cell::new(None) };
+    static STEPS: Cell<u64> = const { Cell::new(0) };
+}
+
+/// Payload of the panic raised by [`tick`] when the budget is exhausted.
+pub const BUDGET_EXHAUSTED: &str = "adf_obdd_verif: step budget exhausted";
+
+/// Sets the step budget of the current thread and resets the step counter; [`None`] disables the budget.
+pub fn set_budget(budget: Option<u64>) {
+    BUDGET.with(|b| b.set(budget));
+    STEPS.with(|s| s.set(0));
+}
+
+/// Number of steps counted on the current thread since the last call of [`set_budget`].
+pub fn steps() -> u64 {
+    STEPS.with(|s| s.get())
+}
+
+/// Counts one step; panics with [`BUDGET_EXHAUSTED`] if a budget is set and used up.
+pub fn tick() {
+    let steps = STEPS.with(|s| {
+        s.set(s.get() + 1);
+        s.get()
+    });
+    if let Some(budget) = BUDGET.with(|b| b.get()) {
+        if steps > budget {
+            panic!("{}", BUDGET_EXHAUSTED);
+        }
+    }
+}
